@@ -408,10 +408,12 @@ class S256Point(Point):
     @classmethod
     def parse_sec(cls, sec_bin):
         """returns a Point object from a SEC pubkey"""
-        if sec_bin[0] == 4:
+        if sec_bin[0] == 4 and len(sec_bin) == 65:
             x = int(sec_bin[1:33].hex(), 16)
             y = int(sec_bin[33:65].hex(), 16)
             return cls(x=x, y=y)
+        if sec_bin[0] not in (2, 3) or len(sec_bin) != 33:
+            raise ValueError(f"Not a valid SEC public key {sec_bin.hex()}")
         is_even = sec_bin[0] == 2
         x = S256Field(int(sec_bin[1:].hex(), 16))
         # right side of the equation y^2 = x^3 + 7
